@@ -113,7 +113,13 @@ def TL(t):
     return ('list', t)
 
 
+# hook for translators built on this one (T25): scalar type tag -> (Coq type, Coq Boolean equality)
+EXTRA_TY = {}
+
+
 def coq_ty(t):
+    if isinstance(t, str) and t in EXTRA_TY:
+        return EXTRA_TY[t][0]
     if t == BOOL:
         return 'bool'
     if t == INT:
@@ -151,6 +157,8 @@ def paren_ty(t):
 
 def eqb_of(t, node=None):
     """the Boolean equality that `==` denotes on values of type t"""
+    if isinstance(t, str) and t in EXTRA_TY:
+        return EXTRA_TY[t][1]
     if t == BOOL:
         return 'Bool.eqb'
     if t == INT:
@@ -548,6 +556,10 @@ class Unit:
                     return ('tuple', tuple(self.ann(e, mod, tyvars) for e in sl.elts))
         fail(node, 'annotation outside grammar')
 
+    def make_tr(self, mod, node, cls, coqname, inst, outer=None):
+        """hook: the translator object of one definition / closure"""
+        return FnTr(self, mod, node, cls, coqname, inst, outer=outer)
+
     # ---- translation of one definition (memoised)
     def function(self, mod, node, cls=None, inst=None):
         suffix = ''
@@ -564,7 +576,7 @@ class Unit:
         if cls is not None and node.name != '__init__' and cls.fields is None:
             self.function(cls.mod, cls.method('__init__', node), cls)
         coqname = 'gen_' + (cls.name + '_' if cls else '') + node.name + suffix
-        tr = FnTr(self, mod, node, cls, coqname, inst or {})
+        tr = self.make_tr(mod, node, cls, coqname, inst or {})
         fn = tr.translate()
         self.in_progress.discard(key)
         self.done[key] = fn
@@ -1145,6 +1157,10 @@ class Stmts:
             return '(' + ', '.join(pats) + ')', new
         fail(t, 'loop target outside grammar')
 
+    def state_binder(self, carried, env):
+        """hook: the binder of the loop-carried variables in the body of foldM / loopM"""
+        return binder_of([env[n].code for n in carried])
+
     def st_for(self, s, env, ctx, cont):
         if s.orelse:
             fail(s, 'for-else')
@@ -1185,7 +1201,7 @@ class Stmts:
                 return f'Ok {paren(state)}'
             body = self.block(s.body, body_env, Ctx(ret=None, brk=None, cont=k_body), k_body)
             self.depth_of_loops -= 1
-            pre.append(f'do {dopat_of(codes)} <-\n  foldM (fun {binder_of(codes)} {binder} =>\n{ind(body, 6)})\n'
+            pre.append(f'do {dopat_of(codes)} <-\n  foldM (fun {self.state_binder(carried, env)} {binder} =>\n{ind(body, 6)})\n'
                        f'    {paren(it.code)} {state};')
             after = dict(env)
             for n in carried:
@@ -1206,7 +1222,7 @@ class Stmts:
                           k_cont)
         self.depth_of_loops -= 1
         t = self.temp()
-        pre.append(f'do {t} <-\n  loopM (R := {rty}) (fun {binder_of(codes)} {binder} =>\n{ind(body, 6)})\n'
+        pre.append(f'do {t} <-\n  loopM (R := {rty}) (fun {self.state_binder(carried, env)} {binder} =>\n{ind(body, 6)})\n'
                    f'    {paren(it.code)} {state};')
         after = dict(env)
         if consumed:
@@ -1231,7 +1247,7 @@ class Stmts:
             fail(s, 'closure defined inside a loop')
         if self.store_count.get(s.name):
             fail(s, f'{s.name} is also assigned')
-        child = FnTr(self.u, self.mod, s, None, 'f_' + s.name, {}, outer=self)
+        child = self.u.make_tr(self.mod, s, None, 'f_' + s.name, {}, outer=self)
         used = {n.id for n in ast.walk(s) if isinstance(n, ast.Name)}
         params = {a.arg for a in s.args.args}
         local = assigned_names(child.body)
@@ -1490,7 +1506,7 @@ class Exprs:
             elif same_ty(a.ty, b.ty) and a.ty is not None:
                 eq = f'{eqb_of(merge_ty(a.ty, b.ty), node)} {A} {B}'
             else:
-                fail(node, f'== between {a.ty} and {b.ty}')
+                eq = self.mixed_eq(a, b, node)
             return Val(eq if isinstance(op, ast.Eq) else f'negb ({eq})', BOOL)
         if a.ty == INT and b.ty == INT:
             sym = {ast.Lt: '<?', ast.LtE: '<=?', ast.Gt: '>?', ast.GtE: '>=?'}.get(type(op))
@@ -1499,6 +1515,10 @@ class Exprs:
         if a.ty == BOOL and b.ty == BOOL and isinstance(op, (ast.Lt, ast.Gt)):      # False < True
             return Val(f'negb {A} && {B}' if isinstance(op, ast.Lt) else f'{A} && negb {B}', BOOL)
         fail(node, f'comparison {type(op).__name__} on {a.ty} and {b.ty}')
+
+    def mixed_eq(self, a, b, node):
+        """hook: the code of a == b for operands of two different types"""
+        fail(node, f'== between {a.ty} and {b.ty}')
 
     def ifexp(self, node, env, pre):
         render, env_t, env_f, const = self.test(node.test, env, pre)
